@@ -2,20 +2,27 @@
 """C02 - evaluation is a pure, repeatable function of formula and registered bindings
 
 Sub-checks (case kinds):
-  history          seeded sequences of operations on 1-3 long-lived parsers; after EVERY operation every
-                   probe formula is evaluated on every long-lived parser and must give exactly the record a
-                   FRESH parser with the same registrations gives            [oracle: history-independence]
-  debug            the same registrations with debug on / off / toggled: identical records   [oracle: debug]
-  immut-fn/-ops    host lists (variables, cell values, range values, values returned by host functions) are
-                   snapshotted (deep copy, id and length of every nested list) before an evaluation and
-                   compared afterwards                                       [oracle: host-value immutability]
+  history          seeded sequences of operations on 1-3 long-lived parsers (valid, erroneous and aborted
+                   evaluations, re-registrations, further parsers, `foreignlex` = a PLY lexer built by the host);
+                   after the set-up block and after every later operation every probe formula is evaluated on
+                   every long-lived parser and must give exactly the record a FRESH parser with the same
+                   registrations gives; the traceback chains of the nine singletons must stay short
+                                                                   [oracle: history-independence / memory]
+  debug            the same registrations with debug on / off / toggled, host values that cannot be printed
+                   (repr raises, 5000-deep list) among them: identical records               [oracle: debug]
+  inert            listeners that set nothing and raise nothing (one edits the argument list it is handed):
+                   same records with them, without them, on a parser created later  [oracle: inert listener]
+  immut-fn/-ops    host values (variables, cell values, range values, values returned by host functions) are
+                   snapshotted (deep copy, id and length of every nested list / tuple / dict) before the
+                   evaluations and compared after each one                [oracle: host-value immutability]
   memory / memory-distinct
-                   n = 50,100,200,400 repetitions of one formula (or n distinct formulas) on a long-lived
-                   parser: live gc objects, traceback chains of the nine singletons, tracemalloc bytes
-                   allocated in hotxlfp/ply frames must not grow                 [oracle: memory]
-Histories whose formulas are inside the modelled fragment are also sent to the Lean session model
-(`session.run`): every record and the final hidden state (errorok, clone lexer text, global lexer, traceback
-chains, number of tracebacks printed) are compared.
+                   30 warm-up evaluations, then samples after 50,100,200,400 repetitions of one formula (or as
+                   many distinct formulas) on a long-lived parser: live gc objects, traceback and context
+                   chains of the nine singletons, tracemalloc bytes allocated in hotxlfp/ply frames must not
+                   grow (object / byte growth is measured a second time, twice as long) [oracle: memory]
+The model-compared histories (generated from the pools inside the modelled fragment) are also sent to the Lean
+session model (`session.run`): every record and the final hidden state (errorok, clone lexer text, depth of the
+LR stack, global lexer, traceback chains, number of tracebacks printed) are compared.
 """
 import contextlib
 import copy
@@ -42,33 +49,100 @@ FUNCTIONS = ['hotxlfp.parser:Parser.__init__', 'hotxlfp.parser:Parser.parse', 'h
              'hotxlfp.formulas.utils:iflatten', 'hotxlfp.formulas.utils:flatten', 'hotxlfp.formulas.utils:inumbers',
              'hotxlfp.formulas.statistical:LARGE', 'hotxlfp.tinyemitter:Emitter.emit',
              'ply.yacc:LRParser.__init__', 'ply.yacc:LRParser.parseopt_notrack', 'ply.lex:Lexer.clone', 'ply.lex:Lexer.input']
-RULE = ('(a) seeded histories (<= 40 operations quick, <= 300 thorough) on 1-3 long-lived parsers mixing valid formulas '
-        '(c04/c08 tree generators, one or more formulas of every builtin family, every registered builtin at arity 1-3), '
-        'erroneous ones (syntax errors, unknown names/functions, 1/0, bad arities), evaluations aborted by raising '
-        'callbacks (host functions and callCellValue/callVariable/callFunction listeners raising ValueError, KeyError, '
-        'XLError singletons; re-entrant evaluation), re-registrations (variables incl. lists, functions incl. shadowing '
-        'a builtin, cell/range values, debug) and new parsers; after EVERY operation the whole probe set is evaluated '
-        'on every long-lived parser and compared (type-strict ==, float tolerance 0) with a fresh parser per probe '
-        'that received the same registrations; (b) debug on/off/toggled triples with stderr captured; (c) every '
-        'registered builtin x arity 1..3 x list-shaped arguments (flat unsorted, nested, mixed, dict, object) delivered '
-        'as variables, cell values, range values and host-function results, and all 11 operators + unary minus + '
-        'array literals on list operands: deep copy / id / length of every nested list before vs after; (d) memory: '
-        'gc object count, singleton traceback-chain lengths and tracemalloc bytes of hotxlfp/ply frames after '
-        '50/100/200/400 repetitions (and after as many DISTINCT formulas), slope must be 0. NOW, TODAY, RAND, '
-        'RANDBETWEEN are excluded. Non-trivial history = contains a failing evaluation, a raising callback and a '
-        're-registration before a probe.')
-TRUSTED = ['the LR stack residue and the clone cursor after an aborted parse are over-approximated by the session model '
-           '(compared as: real stack depth <= model depth); raises caught inside builtins (CONCATENATE) are not modelled',
-           'host-value immutability and the memory clause are judged on the implementation only (values are immutable in '
-           'the model): gc.get_objects / tracemalloc / traceback-chain walks are the measuring instruments',
-           'builtins outside the modelled fragment (operators, literals, variables, cells, ranges, Logic/Info builtins, '
-           'SUM, host functions) take part in the oracle histories only']
-ASSUMPTIONS = ['"bindings" = variables, functions, the listeners and what they deliver, and the debug flag; once-listeners '
-               '(which deregister themselves, i.e. change the bindings) are outside this property (C20)',
+RULE = ('(a) kind `history`: seeded histories on 1-3 long-lived parsers, quick 5 model-compared + 7 oracle-only (25 + 35 at '
+        'scale 5), thorough 60 + 140; 15/25/40 steps quick, 40/80/150/300 thorough (every 4th history 300). Set-up block: '
+        '1..all planned parsers, each with debug on at p 0.25 and the standard bindings (40 registrations: variables va vb v_c '
+        'rate_x lista listb txt and e_<tag> = each of the 9 error values; functions RAISE_<TAG> raising each error singleton, '
+        'ID ARGS PYRAISE KEYRAISE NARAISE HOSTLIST; 7 cells incl. list-valued F6, ranges A1:B2 A1:A3; oracle-only histories 8 '
+        'more: cells Z9 Y8 / range Y1:Z2 whose listener raises ValueError / the #NUM! singleton / KeyError, callVariable / '
+        'callFunction listeners raising for badvar / BADFN, re-entrant EVALSELF). A step is one block: 18% a valid formula '
+        '(fixed pool 38 model / 117 oracle-only, the latter across the builtin families and operators on lists), 12% a c04 '
+        'operator tree or a c08 error-propagation tree under one of its 10 wrappers (per-history pool of max(4, steps/3) '
+        'texts, depth <= 4 quick / 5 thorough), 8% (oracle-only) a random registered builtin with 0-3 arguments from a '
+        '15-member pool (incl. lists, an error value, cell, range, empty slot), 22% (model 30%) an erroneous formula (48 / 62: '
+        'syntax errors, unknown names/functions, 1/0, bad arities, error literals/values, failing builtins; oracle-only 15% of '
+        'these a cut-off prefix of a valid formula), 16% an evaluation aborted by a raising callback (14 / 30: host functions '
+        'raising ValueError, KeyError, XLError singletons / also raising listeners, re-entrant evaluation), 19% a '
+        're-registration on a random parser (38 / 51: variables incl. lists, errors and the name TRUE, functions incl. '
+        'shadowing SUM and defining NOSUCH, cell/range values, debug / listeners switched to raising and back), 2% '
+        '(oracle-only) `foreignlex`: the host builds and runs a PLY lexer of its own, so ply.lex.lexer is foreign, 3% (model '
+        '5%) a further parser with the standard bindings (one block) or, all being built, the empty formula. After the set-up '
+        'block and after every step every probe (22 model / 43 oracle-only; a seeded half when steps > 100) is evaluated on '
+        'every parser built so far and its record compared (type-strict ==: 1, 1.0, True differ; float tolerance 0, NaN = NaN) '
+        'with that of a fresh parser given the same registrations in the same order (built once per parser x registration '
+        'state x probe); the records of the steps themselves are compared with the model only; after every block the traceback '
+        'chains of the nine singletons must total <= 100 entries; a history stops at 5 findings. (b) kind `debug`, 2 cases: '
+        '120 (thorough all 252) of the fixed valid/erroneous/raising/probe formulas; 60 (300) c04/c08 trees of depth <= 5 + 80 '
+        '(600) random builtin calls; each + 10 formulas passing unprintable host values (an object whose repr/str raise, a '
+        'list nested 5000 deep) through variables, cell H9, range H9:H10, host functions TAKES / GIVES; every formula on three '
+        'parsers with the 48 bindings - debug off, on, toggled per formula - stderr captured, the three records type-strict '
+        'equal. Kind `inert`, 1 case: 40 seeded valid + 12 fixed formulas on a parser without extra listeners, twice on one '
+        'with callFunction / callVariable journal listeners that set and raise nothing (the callFunction one edits in place '
+        'the argument list it is handed), on the first again, on a parser created afterwards: five equal records. (c) kind '
+        '`immut-fn`, one case per registered builtin (152): 88 formulas = arity 1..3 x 10/14/13 argument sets over 13 host '
+        'values (flat unsorted, nested, mixed, deep, text, empty, one-element lists, dict, object holding a list, tuple '
+        'holding a list) as variables, once more as cell / range / host-function result (rotating), every third through host '
+        'function KEEP; kind `immut-ops`, 1 case of 2336 formulas: the 11 binary operators x 10 list / tuple values x 4 '
+        'delivery paths (value op 2, "x" op value) and x 4 partner lists, and 12 values x 4 paths x 12 shapes (unary minus, '
+        'array literals, parentheses, IF, IFERROR, KEEP, SUM, bare). One parser per case; after every formula each of the 13 '
+        'values is compared with its deep copy (==) and with the id and length of every nested list/tuple/dict (to depth 20); '
+        'stops at 3 findings; a formula running > 10 s (SIGALRM, wall-clock) is skipped, not judged. (d) kind `memory`: 18 '
+        'formulas quick / 36 thorough (valid, syntax and name errors, raised and returned errors, raising callbacks, '
+        're-entrant) with debug off + 2 / 4 with debug on; kind `memory-distinct`: 6 / 13 templates giving a different formula '
+        'each time; 30 warm-up evaluations, then samples after 50/100/200/400 on one parser per debug setting shared by all '
+        'memory cases: live gc objects after gc.collect, tracemalloc bytes of hotxlfp/ply frames, __traceback__ and '
+        '__context__/__cause__ chain lengths of the nine singletons. Verdict: any chain growth between the last two samples; '
+        'or > 0.05 objects or > 0.5 bytes per evaluation there with growth in the interval before too, confirmed by a second '
+        'measurement at 100/200/400/800. Scale changes (a) only. Model-compared histories are sent whole (steps and probe '
+        'evaluations) to `session.run`; all other cases are oracle-only. NOW, TODAY, RAND, RANDBETWEEN are excluded. search() '
+        '(proof or correspondence broke, no oracle failure yet): 20 + 28 more histories quick, 60 + 140 thorough, oracle only, '
+        'until the first failure. A failing history is shrunk (one probe, blocks and registrations dropped, <= 200 re-runs). '
+        'Non-trivial: history = a failing step, a step naming a raising callback, a registration and a probe comparison; debug '
+        '= a traceback printed with debug on; immut = a formula judged; inert, memory always. Bulk weights (evaluations, '
+        'non-trivial inputs, model comparisons): history (parses, probe comparisons, model records), debug (3n, n, 0), inert '
+        '(5n, 4n, 0), immut (n, n, 0) with n formulas, memory (430, 1, 0).')
+TRUSTED = ['the LR stack residue after an aborted parse is over-approximated by the session model (compared as: real stack '
+           'depth <= model depth) and the cursor of the clone lexer is not compared (its text is); raises caught inside '
+           'builtins (CONCATENATE) are not modelled',
+           'model-compared histories: every record within 4 ulps or 1e-9 relative of that of the model; at the end '
+           'traceback-chain length per singleton, tracebacks printed, index of the parser owning ply.lex.lexer (sampled right '
+           'after each Parser construction), per parser errorok, clone text and a never-fed prototype lexer, read off '
+           'p.parser.yacc / p.parser.lex; where the model has no opinion `(o ...)` the record, the traceback count and the '
+           'stack depths are not compared; a history cut short by an oracle finding is not aligned',
+           'host-value immutability, debug, inert listeners and the memory clause are judged on the implementation only '
+           '(values are immutable in the model): gc.get_objects / tracemalloc (1 frame, file names */hotxlfp/* */ply/*) / '
+           'traceback-chain walks are the measuring instruments, 0.05 objects and 0.5 bytes per evaluation the noise floor',
+           'model-compared histories stay inside the modelled fragment (operators, literals, variables, cells, ranges, '
+           'Logic/Info builtins, SUM, host functions); other builtins, raising listeners, EVALSELF, foreignlex and cut-off '
+           'formulas take part in the oracle-only histories',
+           'harness hygiene: __traceback__/__context__/__cause__ of the nine singletons are cleared before and after every '
+           'case (growth is observed within a case, not across cases); a mutated host value is restored after its finding; '
+           'tracebacks printed are counted by their first line on a redirected sys.stderr',
+           'history non-triviality takes a step as raising by its text (RAISE, Z9, Y8, Y1, BAD, bad occur in it) and counts '
+           'the set-up registrations as registrations; c04/c08 tree texts are used as formulas only (names those plugins bind '
+           'and the standard bindings lack are unknown names here)']
+ASSUMPTIONS = ['"bindings" = variables, functions, the listeners and what they deliver, and the debug flag (the fresh parser '
+               'receives it too; the debug triples say it changes no record); once-listeners (which deregister themselves, '
+               'i.e. change the bindings) are outside this property (C20)',
+               '"the same outcome" = the record {result, error} equal with types (1, 1.0, True differ), floats with tolerance '
+               '0 (NaN = NaN), one and the same host object equal to itself; what is printed on stderr is no part of the '
+               'outcome',
+               '"any sequence of earlier evaluations" includes evaluations and registrations on OTHER parsers of the process, '
+               'parsers built later, re-entrant evaluation and a foreign PLY lexer built by the host; the verdict is on the '
+               'probes after each step, the record of a step itself is not judged by the oracle',
+               'a listener that sets nothing and raises nothing is no binding: records with and without it are equal, also '
+               'when it edits the argument list it was handed',
+               'debug on/off: the clause is equality of the three records; printing that calls repr/str of a host value or '
+               'recurses through a 5000-deep list shows only as a record that differs between the settings',
+               '"never mutates": == with a deep copy plus identity and length of every nested container of the 13 host values; '
+               'a result that aliases a host list and what a host function does with its arguments are not judged',
                '"retains no memory per evaluation": what stays reachable after an evaluation may depend on the LAST formula '
-               '(ply keeps the last stacks and the last clone lexer) but not on the number of evaluations',
+               '(ply keeps the last stacks and the last clone lexer) but not on the number of evaluations; 30 warm-up '
+               'evaluations are free, growth counts when it persists over two successive intervals and a repeat twice as long, '
+               'chain growth on the singletons at once; in a history > 100 chain entries in total count as retention',
                'clock and random source are excluded by excluding NOW, TODAY, RAND, RANDBETWEEN',
-               'host callbacks are themselves pure (the harness registers only stateless callbacks)']
+               'host callbacks are themselves pure (the harness registers only callbacks whose answer depends on their '
+               'arguments and the registered tables; journals they keep are never read back by them)']
 EXHAUSTIVE = {'quick': False, 'thorough': False}
 
 NONDET = {'NOW', 'TODAY', 'RAND', 'RANDBETWEEN'}
@@ -353,7 +427,7 @@ RAISING_WILD = RAISING_MODEL + ['Z9', 'Z9+1', 'SUM(1,Z9)', 'Y8*2', 'IFERROR(Y8,0
 
 
 def generic_calls(rng, n):
-    """registered builtins at arity 1-3 over generic arguments (many answer with an error: that is the point)"""
+    """registered builtins with 0-3 generic arguments (many answer with an error: that is the point)"""
     hotxlfp, _ = _hot()
     from hotxlfp import formulas
     names = [x for x in formulas.supported() if x not in NONDET]
